@@ -42,6 +42,8 @@ PACKS = {
     "symcycle": dict(sym=True, cycle=True),
     "oneway": dict(oneway=True, inf=True),
     "onewaysym": dict(oneway=True, inf=True, sym=True),
+    # the (redundant) start class is only the child of a one-way single-child rule: derivable only as the reverse of that rule
+    "redpar": dict(redpar=True),
 }
 # packs whose point is a statistics mechanism always run with statistics; the cycle symmetry needs three letters
 PACK_STATS = {"trim": "s2", "trimsym": "s2", "rename": "s2", "mono": "s1", "trimonly": "s2", "trimrename": "s2", "hidden": "s1"}
@@ -103,7 +105,7 @@ def configs(tier: str, seed: int, flavours=("default", "forget", "forest"), pack
     if max_n:
         # configurations that must not be sampled away: the packs that exist for one specific mechanism
         special = [c for c in out if c[4] in ("lazy", "needrev", "oneway", "onewaysym", "pfactory", "split", "trim", "trimsym", "rename",
-                                              "mono", "fac2", "symcycle", "trimonly", "trimrename", "hidden", "pfactory2", "noinf")]
+                                              "mono", "fac2", "symcycle", "trimonly", "trimrename", "hidden", "pfactory2", "noinf", "redpar")]
         keep = []
         seen = set()
         for c in special:
@@ -122,7 +124,9 @@ def build(cfg):
 
     prefix, pats, alph, st, pk, fl, sch, reverse = cfg
     pats = list(pats)
-    if W_needs_redundant(pk):
+    if PACKS[pk].get("redpar"):
+        pats = pats + [p + p[-1] for p in sorted(pats)[:1]]  # exactly the pattern AddRedundant adds to the minimal class
+    elif W_needs_redundant(pk):
         pats = pats + [p + p[-1] for p in pats[:1]]  # a redundant pattern so that inferral has work
     start = W.WC(prefix, pats, alph, False, STATS[st])
     pack = W.make_pack(**PACKS[pk])
